@@ -1239,6 +1239,51 @@ func c03RequiredKeys(r *core.Report) {
 				}
 			}
 		}
+		// openapi2 has no Validate: the keys the Swagger 2 specification requires, frozen here
+		info2 := p.Pkg("openapi2").TypesInfo
+		for _, row := range [][3]string{{"T", "paths", "Paths Object: required"}, {"SecurityScheme", "scopes", "required for oauth2"}} {
+			tn := p.NamedType("openapi2", row[0])
+			my := core.HasMethod(tn, "MarshalJSON")
+			if my == nil {
+				core.Fail("openapi2.%s has no MarshalJSON", row[0])
+			}
+			md := p.Decl(my)
+			n++
+			key := fmt.Sprintf("requiredkeys:openapi2.%s.%s", row[0], row[1])
+			state := "missing"
+			ast.Inspect(md.Body, func(nd ast.Node) bool {
+				as, ok := nd.(*ast.AssignStmt)
+				if !ok || len(as.Lhs) != 1 {
+					return true
+				}
+				ix, ok := ast.Unparen(as.Lhs[0]).(*ast.IndexExpr)
+				if !ok {
+					return true
+				}
+				if k, isStr := core.ConstStr(info2, ix.Index); !isStr || k != row[1] {
+					return true
+				}
+				state = "conditional at " + p.Pos(as.Pos())
+				for _, bs := range md.Body.List {
+					if bs == ast.Stmt(as) {
+						state = "ok"
+					}
+				}
+				var inner *ast.IfStmt
+				for _, anc := range core.PathTo(md.Body, as) {
+					if ifs, ok := anc.(*ast.IfStmt); ok {
+						inner = ifs
+					}
+				}
+				if inner != nil {
+					if be, ok := ast.Unparen(inner.Cond).(*ast.BinaryExpr); ok && be.Op == token.NEQ && core.IsNil(info2, be.Y) {
+						state = "ok"
+					}
+				}
+				return true
+			})
+			r.Check(state == "ok", key, p.Pos(md.Pos()), "written whenever it was given", fmt.Sprintf("openapi2.%s.MarshalJSON writes %q only when it is not empty (%s): `%s: {}` (%s) disappears from the output, which is then no longer the document that was read", row[0], row[1], state, row[1], row[2]))
+		}
 		if n == 0 {
 			core.Fail("no required-non-nil field with a MarshalYAML found")
 		}
